@@ -237,6 +237,14 @@ def f57():
 case("F57 datetime labels and bin edges of different units", f57, lambda r: r == [1, 2, 1])
 case("F57 bins closed on neither side", lambda: groupby_reduce(np.ones(5), np.array([0.0, 0.5, 1.0, 1.5, 2.0]), expected_groups=pd.IntervalIndex.from_breaks([0.0, 1.0, 2.0], closed="neither"), func="count")[0].tolist(), lambda r: r == [1, 1])
 
+# F58
+def f58():
+    import flox.aggregations as A
+    return str(groupby_reduce(np.array([True, False, True, True]), np.array([0, 0, 1, 1]), func=A.max_)[0].dtype)
+
+
+case("F58 bool max given as an Aggregation object", f58, lambda r: r == "bool")
+
 bad = 0
 for name, verdict in results:
     print(f"{name:55s} {verdict}")
